@@ -1,2 +1,34 @@
-Theorem C06_placeholder : True. Proof. exact I. Qed.
-Print Assumptions C06_placeholder.
+(* C06 — accepted programs are well-formed and obey the selected rule set.
+   Compile.compile is the literal model of compiler.compile (run against gmars on
+   every run); legal88 / implied_modifier_88 is the independently written table
+   of legal ICWS'88 instructions (spec/Meaning.v, spec/AsmSpec.v).  The theorem
+   quantifies over ALL source-line lists and metadata, so it does not depend on
+   what the lexer / parser produce nor on what the expressions evaluate to. *)
+From GM Require Import Base Text Token Parser Compile Sim Meaning AsmSpec C06Proof.
+Open Scope N_scope.
+
+Theorem C06_accepted_wf :
+  forall cfg lines meta code start meta',
+    compile cfg lines meta = COk code start meta' ->
+    Forall (wf_instr (c_size cfg)) code /\
+    (0 <= start /\ (start < Z.of_nat (length code) \/ (start = 0 /\ code = [])))%Z /\
+    N.of_nat (length code) <= c_len cfg /\
+    (c_mode cfg = 0 -> Forall (fun i => legal88 i = true) code).
+Proof. exact compile_accepts_wf. Qed.
+Print Assumptions C06_accepted_wf.
+
+(* one line: whatever it contains, an assembled instruction has both fields below the core size and,
+   under ICWS'88, is a legal '88 instruction carrying the implied modifier *)
+Theorem C06_line_wf :
+  forall cfg c ln i, 3 <= c_size cfg ->
+    assemble_line cfg c ln = AOk i ->
+    wf_instr (c_size cfg) i /\ (c_mode cfg = 0 -> legal88 i = true).
+Proof. exact assemble_line_wf. Qed.
+Print Assumptions C06_line_wf.
+
+(* the '88 table in load.go agrees with the independent table on all 17 x 8 x 8 combinations of '88 modes *)
+Theorem C06_table_88_agrees :
+  forall o am bm md, is88mode am = true -> is88mode bm = true ->
+    op_mode_88 o am bm = Some md -> implied_modifier_88 o am bm = Some md.
+Proof. intros o am bm md. apply op_mode_88_legal. right. exact I. Qed.
+Print Assumptions C06_table_88_agrees.
